@@ -479,6 +479,15 @@ func (p *Prog) ConstGlobal(g *ssa.Global) ssa.Value {
 					case *ssa.MapUpdate:
 						_, k1 := y.Key.(*ssa.Const)
 						_, k2 := y.Value.(*ssa.Const)
+						if !k2 {
+							// a function (a method expression, possibly converted to a named function type): a
+							// constant dispatch table
+							fv := y.Value
+							if ct, isCT := fv.(*ssa.ChangeType); isCT {
+								fv = ct.X
+							}
+							_, k2 = fv.(*ssa.Function)
+						}
 						if !k1 || !k2 {
 							pure = false
 						}
